@@ -5,12 +5,12 @@ package sctp
 // Two-party data-transfer obligations over real marshalled packets (serve C01, C02, C06, C07).
 
 type vNet struct {
-	a, b    *Association
-	idx     int
-	dropAt  int // index of the packet that is lost (-1: none)
-	dropAt2 int // a second lost packet (0 or -1: none; packet 0 can only be lost through dropAt)
-	dupAt   int // index of the packet that is delivered twice (-1: none)
-	fwdSeen bool
+	a, b         *Association
+	idx          int
+	dropAt       int // index of the packet that is lost (-1: none)
+	dropAt2      int // a second lost packet (0 or -1: none; packet 0 can only be lost through dropAt)
+	dupAt        int // index of the packet that is delivered twice (-1: none)
+	fwdSeen      bool
 	dropFirstFwd bool // lose the first packet that carries a (I-)FORWARD-TSN
 	fwdDropped   bool
 }
